@@ -84,7 +84,7 @@ func runC02(w *eng.W) {
 		prefixPostfix(w, "prefix-postfix", append(append([]string{}, ref.BinaryOps...), "="), do)
 	}
 	gapSeqs(w, "class-gaps", SigmaClass, []string{" ", "\n"}, pick(3, 4), do)
-	gapSeqs(w, "reduced-gaps", reducedAlpha, []string{"", " ", "\n"}, pick(4, 5), do)
+	gapSeqs(w, "reduced-gaps", reducedAlpha, []string{"", " ", "\n", "\u2029"}, pick(4, 5), do)
 	byteStrings(w, "bytes", pick(4, 5), do)
 	tokenSeqs(w, "class-seq", SigmaClass, pick(4, 6), do)
 }
